@@ -26,7 +26,7 @@ CFG = """CONSTANTS
   Rich = %s
   NthAll = %s
 %s
-INVARIANTS Refines NoTwoBlanks Conservation Complete SideHonoured FitsPage Emit
+INVARIANTS Refines NoTwoBlanks Conservation Complete SideHonoured SidesAlternate FitsPage Emit
 %s
 CHECK_DEADLOCK FALSE
 """
@@ -107,9 +107,9 @@ def run(ctx, prefix="C12:"):
     return ctx.finish("model_checking", {
         "exhaustive": True, "evaluations": tot[0], "pages": tot[1], "families": cov,
         "rule": "every flow of <= 2 paragraphs (1..3 lines; break-before auto/avoid; break-after auto/avoid/page; break-inside auto/avoid; orphans, widows 1..2) x page capacity in lines; "
-                "simulation (seeded) of 3..6 paragraphs with break-after left/right and a distinct :first page height",
+                "simulation (seeded) of 3..6 paragraphs with break-after left / right / recto / verso, a left-to-right or right-to-left root (first page right or left), named pages and a distinct :first page height",
     }, assumptions=[
         "paragraph lines are separated by <br> and never wrap; all line heights are 10px, the page content height is 10*H+4px",
-        "left-to-right documents (the first page is a right page); no named pages, floats, tables or nested fragmentation contexts",
+        "no floats, tables or nested fragmentation contexts",
         "when no break conforming to every rule exists the property leaves the choice open: any break of the first non-empty rule-dropping tier is accepted",
     ])
